@@ -38,6 +38,8 @@ def run(ctx, repo):
     RX.r_timestamp_int_fields(ctx, repo)
 
     RX.r_timestamp_exact(ctx, repo)
+    RL.r_regex_linear(ctx, repo)
+
 
 if __name__ == '__main__':
     sys.exit(report.main('C08', 'proof', run))
